@@ -7,6 +7,7 @@ from typing import Any, Callable, Dict, List, Set, Tuple, TypeVar
 
 from loguru import logger
 
+from tawazi import _verif
 from tawazi._dag.digraph import DiGraphEx
 from tawazi._helpers import StrictDict
 from tawazi.consts import Identifier, Resource, RVTypes
@@ -128,7 +129,20 @@ def wait_for_finished_nodes(
     """
     if len(running) == 0:
         return done, running, runnable_xns_ids
+    if _verif.ENABLED:
+        _verif.emit(
+            "wait_begin",
+            kind="thread",
+            return_when=return_when,
+            graph=graph,
+            futures=futures,
+            running=running,
+        )
     done_, running = wait(running, return_when=return_when)
+    if _verif.ENABLED:
+        _verif.emit(
+            "wait_end", kind="thread", graph=graph, done=[futures.inverse[f] for f in done_]
+        )
     done = done.union(done_)
 
     # 1. among the finished futures:
@@ -166,7 +180,20 @@ async def wait_for_finished_nodes_async(
     """
     if len(running) == 0:
         return done, running, runnable_xns_ids
+    if _verif.ENABLED:
+        _verif.emit(
+            "wait_begin",
+            kind="async",
+            return_when=return_when,
+            graph=graph,
+            futures=futures,
+            running=running,
+        )
     done_, running = await asyncio.wait(running, return_when=return_when)
+    if _verif.ENABLED:
+        _verif.emit(
+            "wait_end", kind="async", graph=graph, done=[futures.inverse[f] for f in done_]
+        )
     done = done.union(done_)
 
     # 1. among the finished futures:
@@ -256,6 +283,14 @@ async def async_execute(
     # 0.2 prune the graph from the ArgExecNodes and setup ExecNodes that are already executed
     # so that they don't get executed in the ThreadPool
     graph.remove_nodes_from([id_ for id_ in graph if id_ in results])
+    if _verif.ENABLED:
+        _verif.emit(
+            "exec_begin",
+            graph=graph,
+            exec_nodes=exec_nodes,
+            results=results,
+            max_concurrency=max_concurrency,
+        )
 
     # 0.3 create variables related to futures
     conc_futures: BiDict[Identifier, "Future[Any]"] = BiDict()
@@ -326,6 +361,8 @@ async def async_execute(
         # Note: This step might run a number of times in the while loop
         #       before the exec_node gets submitted
         if xn.is_sequential and running_threads() != 0:
+            if _verif.ENABLED:
+                _verif.emit("seq_defer", xn=xn, graph=graph)
             logger.debug(
                 "{} must not run in parallel. Wait for the end of a node in {}", xn.id, conc_running
             )
@@ -344,12 +381,16 @@ async def async_execute(
         if not _xn_active_in_call(xn, results):
             logger.debug("Prune {} from the graph", xn.id)
             results[xn.id] = None
+            if _verif.ENABLED:
+                _verif.emit("skip", xn=xn, graph=graph)
             runnable_xns_ids |= graph.remove_root_node(xn.id)
             # if node is starting point of a subgraph, the whole subgraph should be skipped
             # by assigning None to all nodes in the subgraph
             continue
 
         # 5.2 submit the exec node to the executor
+        if _verif.ENABLED:
+            _verif.emit("dispatch", xn=xn, graph=graph)
         if xn.resource == Resource.thread:
             exec_future_sync = executor.submit(xn.execute, results=results, profiles=profiles)
             conc_running.add(exec_future_sync)
@@ -383,6 +424,8 @@ async def async_execute(
             )
 
     executor.__exit__(None, None, None)
+    if _verif.ENABLED:
+        _verif.emit("exec_end", graph=graph, results=results)
 
     return exec_nodes, results, profiles
 
